@@ -1,4 +1,5 @@
 import Yomm2.Proofs.Lattice
+import Yomm2.Proofs.Graph
 import Yomm2.Model.World
 /-!
 # C04 — dispatch only reads table cells that update wrote for that class and parameter
@@ -62,6 +63,20 @@ theorem lattice_slots_disjoint (tb cov : Nat → List Nat) (hc : Lattice.Complet
     (Lattice.allocAll tb cov (Tab.const []) (Tab.const []) todo []).2.Pairwise
       (fun e e' => ∀ x, x ∈ cov e.2.1 → x ∈ cov e'.2.1 → e.2.2 ≠ e'.2.2) :=
   Lattice.allocAll_disjoint tb cov hc _ _ todo [] (by simp) List.Pairwise.nil
+
+/-- the graph `augment_classes` builds satisfies the allocator's requirement for EVERY presentation of
+    the base lists (complete, direct-only, redundant, split): this is what the repair of D4 provides -/
+theorem graph_complete (proj : Nat → Nat) (recs : List ClassRec) (g : Graph) (hg : buildGraph proj recs = .ok g) :
+    Lattice.Complete g.tb.get g.cov.get :=
+  ⟨fun c d h hne => GraphProofs.tb_complete proj recs g hg c d h hne⟩
+
+/-- hence, on the graph of any registry, lattice allocation in any order keeps the cells of parameters
+    that share a descendant apart -/
+theorem lattice_slots_disjoint_graph (proj : Nat → Nat) (recs : List ClassRec) (g : Graph)
+    (hg : buildGraph proj recs = .ok g) (todo : List ((Nat × Nat) × Nat)) :
+    (Lattice.allocAll g.tb.get g.cov.get (Tab.const []) (Tab.const []) todo []).2.Pairwise
+      (fun e e' => ∀ x, x ∈ g.cov.get e.2.1 → x ∈ g.cov.get e'.2.1 → e.2.2 ≠ e'.2.2) :=
+  lattice_slots_disjoint g.tb.get g.cov.get (graph_complete proj recs g hg) todo
 
 /-- non-vacuity: a diamond (0; 1,2 : 0; 3 : 1,2) with parameters rooted at 1, 2 and 0 -/
 example :
